@@ -10,6 +10,7 @@ package par
 //@   ensures [C11.http-only-local] c.Config.GetRedirectSecureChecker(ctx) != nil ==> result == call(c.Config.GetRedirectSecureChecker(ctx), ctx, u)
 
 //@ func (*PushedAuthorizeHandler).HandlePushedAuthorizeEndpointRequest
+//@   modifies anyheap
 //@   let responsible = implements(c.Config, fosite.PushedAuthorizeRequestConfigProvider) && implements(c.Storage, fosite.PARStorage) && old(ar.GetResponseTypes()).HasOneOf("token", "code", "id_token")
 //@   let prefix = cast(c.Config, fosite.PushedAuthorizeRequestConfigProvider).GetPushedAuthorizeRequestURIPrefix(ctx)
 //@   requires c != nil && ar != nil && resp != nil && ar.GetRedirectURI() != nil && ar.GetRequestForm() != nil
